@@ -35,11 +35,27 @@ def stages(ctx):
 
 
 def _strategy(ctx):
-    return st.builds(lambda present, form, order, noangles, indir, spell, missing, once_cmd: {"present": present, "form": form, "order": order, "noangles": noangles,
-                                                                                              "indir": indir, "spell": spell, "missing": missing, "once_cmd": once_cmd},
+    return st.builds(lambda present, form, order, noangles, indir, spell, missing, once_cmd, present2: {
+        "present": present, "form": form, "order": order, "noangles": noangles, "indir": indir, "spell": spell, "missing": missing, "once_cmd": once_cmd,
+        "present2": present2},
                      st.lists(st.sampled_from(DIRS), min_size=0, max_size=6, unique=True), st.sampled_from(["quote", "angle"]),
                      st.permutations(["i1", "i2", "s1", "s2"]), st.booleans(), st.booleans(),
-                     st.lists(st.integers(0, len(SPELLINGS) - 1), min_size=0, max_size=4), st.booleans(), st.booleans())
+                     st.lists(st.integers(0, len(SPELLINGS) - 1), min_size=0, max_size=4), st.booleans(), st.booleans(),
+                     st.lists(st.sampled_from(DIRS), min_size=0, max_size=6, unique=True))
+
+
+def model_lookup2(case, winner):
+    """the second level: the copy of h.h that was found includes "h2.h"; its own directory is now the includer's directory"""
+    if winner is None:
+        return None
+    present = set(case["present2"])
+    if not case["indir"]:
+        present.discard("sub")
+    cands = ["cwd"] + ([winner] if winner != "cwd" else []) + list(case["order"])
+    for d in cands:
+        if d in present:
+            return d
+    return None
 
 
 def model_lookup(case):
@@ -69,8 +85,13 @@ def judge(case, ctx):
         for name in case["present"]:
             if name == "sub" and not case["indir"]:
                 continue
+            second = '#include "h2.h"\n#ifndef WHICH2\n#define WHICH2 99\n#endif\n' if case.get("present2") is not None else ""
             run.write(os.path.join(dirmap[name], "h.h"),
-                      "#define WHICH %d\nBEGIN_PUBLISH\nint owned_by_%s(int a);\nEND_PUBLISH\n" % (DIRNUM[name], name))
+                      "#define WHICH %d\nBEGIN_PUBLISH\nint owned_by_%s(int a);\nEND_PUBLISH\n%s" % (DIRNUM[name], name, second))
+        for name in case.get("present2") or []:
+            if name == "sub" and not case["indir"]:
+                continue
+            run.write(os.path.join(dirmap[name], "h2.h"), "#define WHICH2 %d\n" % DIRNUM[name])
         # once-only header and its spellings
         os.makedirs(os.path.join(d, "od"), exist_ok=True)
         once_dir = os.path.join(d, "sub") if case["indir"] else d
@@ -92,6 +113,7 @@ def judge(case, ctx):
             lines.append('#include "%s"' % sp)
         if case["missing"]:
             lines.append('#include "does_not_exist.h"')
+        lines += ["#ifndef WHICH2", "#define WHICH2 98", "#endif", "BEGIN_PUBLISH", "extern int which2_arr[WHICH2];", "END_PUBLISH"]
         lines += ["BEGIN_PUBLISH", "extern int which_arr[WHICH];", "#ifdef SEEN2", "extern int seen_arr[2];", "#else", "extern int seen_arr[1];", "#endif",
                   "int main_fn(int a);", "END_PUBLISH"]
         mainrel = "sub/main.h" if case["indir"] else "main.h"
@@ -129,6 +151,14 @@ def judge(case, ctx):
         back = {v: k for k, v in DIRNUM.items()}
         return Outcome(ok=False, key="lookup", detail="the include resolved to the copy in %s, the stated rule selects %s (%s)" % (
             back.get(got, "none" if got == 99 else got), winner or "none", desc))
+    if case.get("present2") is not None:
+        w2 = model_lookup2(case, winner)
+        want2 = 98 if winner is None else (DIRNUM[w2] if w2 else 99)
+        got2 = arrays.get("which2_arr")
+        if got2 != want2:
+            back = {v: k for k, v in DIRNUM.items()}
+            return Outcome(ok=False, key="lookup-nested", detail="h.h was found in %s; its #include \"h2.h\" resolved to the copy in %s, the stated rule selects %s "
+                           "(h2.h present in %s; %s)" % (winner, back.get(got2, "none" if got2 in (98, 99) else got2), w2 or "none", sorted(case["present2"]), desc))
     if winner is None or case["missing"]:
         if "does_not_exist.h" not in err and case["missing"]:
             return Outcome(ok=False, key="no-warning", detail="a missing include file is skipped without a warning (%s)" % desc)
